@@ -259,8 +259,11 @@ Next == \/ LoopNext
         \/ \E k \in 1..MaxFail : FailNext(k)
 
 Spec == Init /\ [][Next]_vars
-\* fairness: the loop goroutine and every started client call keep running; contexts need not expire
-FairSpec == Spec /\ WF_vars(LoopNext) /\ \A t \in Threads : WF_vars(ThreadStep(t))
+\* fairness: the loop goroutine and every started client call keep running; Go's select chooses at random
+\* among ready cases, so a WaitPub (or ctx.Done) that is ready again and again is eventually chosen (strong fairness);
+\* contexts need not expire
+FairSpec == /\ Spec /\ WF_vars(LoopNext) /\ SF_vars(LoopStop)
+            /\ \A t \in Threads : WF_vars(ThreadStep(t)) /\ SF_vars(LoopRecvWaiter(t))
 
 (* ------------------------------------------------------------------ properties *)
 PCs == {"idle", "u_sel", "u_put", "u_ret", "w_send", "w_wait", "w_woken",
